@@ -1,0 +1,21 @@
+//go:build verif
+
+package stakepool
+
+import (
+	cstate "0chain.net/chaincore/chain/state"
+	"0chain.net/chaincore/transaction"
+	"github.com/0chain/common/core/currency"
+)
+
+// Thin exported wrappers around unexported stake pool code for the /verif engines (no logic).
+
+func (sp *StakePool) VerifGetRandPools(balances cstate.StateContextI, seed int64, n int) []*DelegatePool {
+	return sp.getRandPools(balances, seed, n)
+}
+
+func (sp *StakePool) VerifStake() (currency.Coin, error) { return sp.stake() }
+
+func VerifValidateLockRequest(t *transaction.Transaction, sp AbstractStakePool, vs ValidationSettings, balances cstate.StateContextI) (string, error) {
+	return validateLockRequest(t, sp, vs, balances)
+}
